@@ -65,3 +65,8 @@ claim("C16", "DESIGN.md §3 C16",
       "Thin claim: first clause only. In SeriesCheck.Check the instant probe counts the unstripped selector of the iteration; every Problem literal reachable after it in that iteration requires the `count > 0` false edge and is unreachable from the probe's err != nil branch; instantSeriesCount sums an instant query for its argument; all Prometheus API call sites in promql_series.go follow the C15-R4 error discipline. The second clause (Bug when never present and no producing rule) depends on range data and is NOT decided.",
       SA_NOTE,
       "static analysis: within-iteration reachability with cut edges on go/cfg, nil/err dominance at API call sites")
+
+claim("C18", "DESIGN.md §3 C18",
+      "For all configurations: every config-struct field whose string reaches a panicking or error-dropping constructor (regexp.MustCompile, Must(Raw)TemplatedRegexp, url.Parse with discarded error) — directly, through module functions forwarding a parameter, or through a struct field later fed to such a sink — is checked with the corresponding error-returning constructor in that struct's validate(); no result of an error-discarding call or of a nil-returning module wrapper is dereferenced (or handed to external code) without a nil test; every hcl-tagged struct validates its nested structs and Load/Check.Decode call the validators. Four genuine defects found by these rules were fixed in /repo.",
+      SA_NOTE,
+      "static analysis: parameter-to-sink summaries to a fixed point over the type-checked AST (field-mediated flows included), validator table extracted from validate() methods, dropped-error/nil dominance on go/cfg, field coverage of validate()")
